@@ -3,7 +3,7 @@
 # 1. confirm the seeded change in the scratch worktree (demo passes clean / fails patched / suite passes patched)
 # 2. apply it to /repo, run the registered quick checks of the given properties, undo it straight afterwards
 WT=$1; M=$2; PKG=$3; T=$4; shift 4
-/verif/tools/verify_mutant.sh $WT $WT/$M $PKG $T 2>&1 | tail -8
+/verif/tools/verify_mutant.sh $WT $WT/$M $PKG $T $EXTRA_ARGS 2>&1 | tail -8
 cd /repo || exit 2
 git -C /repo status --short | grep -v '^??' | head -3
 git -C /repo apply $WT/$M/patch.diff || { echo "APPLY TO /repo FAILED"; exit 1; }
